@@ -274,6 +274,51 @@ def z_cross():
             "counters": {"cross_agree": agree, "cross_not_compared": skipped}}
 
 
+def z_raw_rules():
+    """every raw rule line of every shipped .rul/.order/.deploy text (incl. the TAB-separated ones) and a grammar of
+    synthetic lines: annet's _parse_raw_rule splits row and %params exactly like the reference splitter"""
+    from annet.annlib.rbparser import syntax
+    from annet.annlib.netdev.views.hardware import HardwareView
+    from annet import rulebook
+    import itertools
+    raws = set()
+    prov = rulebook.DefaultRulebookProvider()
+    for m in MODELS:
+        hw = HardwareView(m, None)
+        try:
+            from annet.annlib.rbparser.platform import VENDOR_ALIASES
+            names = [VENDOR_ALIASES.get(hw.vendor, hw.vendor) + ".rul", hw.vendor + ".order", hw.vendor + ".deploy"]
+        except Exception:  # noqa
+            continue
+        for n in names:
+            try:
+                text = prov._render_rul(n, hw)
+            except FileNotFoundError:
+                continue
+            for ln in text.split("\n"):
+                if ln.strip() and not ln.strip().startswith("#"):
+                    raws.add(ln.strip())
+    seps = [" ", "  ", "\t", " \t", "\t\t"]
+    for row in ("a *", "undo x ~", "b"):
+        for s1, s2 in itertools.product(seps, seps):
+            raws.add(row + s1 + "%global" + s2 + "%logic=common.default")
+            raws.add(row + s1 + "%order_reverse")
+    bad = 0
+    names = ["global", "logic", "diff_logic", "comment", "multiline", "ordered", "rewrite", "parent", "force_commit", "ignore_case",
+             "order_reverse", "scope", "timeout", "send_nl", "apply_logic", "ifcontext", "cant_delete", "prio", "generator_names"]
+    scheme = {k: {"validator": str, "default": None} for k in names}
+    for raw in sorted(raws):
+        row, params = syntax._parse_raw_rule(raw, scheme)
+        got = (row, {k: v for k, v in params.items() if v is not None})
+        want = ref.ref_split_raw_rule(raw)
+        want = (want[0], {k: v for k, v in want[1].items() if k in names})
+        ok = got == want
+        rt.record({"raw": raw}, ok, ["raw", raw] if "%" in raw else None, detail={"annet": got, "reference": want},
+                  fingerprint="C07:raw-rule-split")
+        bad += 0 if ok else 1
+    return {"verdict": "refuted" if bad else "confirmed", "queries": 0}
+
+
 def replay_lang(case):
     from annet.annlib.rbparser import syntax
     row, flags, w = case["rule"], case["flags"], case["witness"]
@@ -571,6 +616,7 @@ def plan(tier):
         dict(name="1.z_lang", func="z_lang", kind="py", shards=16, timeout=900 if q else 3000,
              bound="all rows (any length) over printable ASCII+TAB"),
         dict(name="3.z_reverse", func="z_reverse", kind="py", shards=8, timeout=900 if q else 3000),
+        dict(name="5.raw_rules", func="z_raw_rules", kind="py", shards=1, timeout=300),
         dict(name="4.z_cross[cvc5]", func="z_cross", kind="py", shards=1, timeout=600 if q else 3000),
     ]
     n = 8 if q else len(KEY_PATTERNS)
@@ -581,6 +627,15 @@ def plan(tier):
 
 
 def replay(obligation, case):
+    if obligation.startswith("5."):
+        from annet.annlib.rbparser import syntax
+        names = ["global", "logic", "diff_logic", "comment", "multiline", "ordered", "rewrite", "parent", "force_commit", "ignore_case",
+                 "order_reverse", "scope", "timeout", "send_nl", "apply_logic", "ifcontext", "cant_delete", "prio", "generator_names"]
+        row, params = syntax._parse_raw_rule(case["raw"], {k: {"validator": str, "default": None} for k in names})
+        got = (row, {k: v for k, v in params.items() if v is not None})
+        want = ref.ref_split_raw_rule(case["raw"])
+        want = (want[0], {k: v for k, v in want[1].items() if k in names})
+        return {"ok": got == want, "detail": {"annet": got, "reference": want}, "fingerprint": "C07:raw-rule-split"}
     if obligation.startswith("1."):
         return replay_lang(case)
     if obligation.startswith("2."):
